@@ -7,7 +7,9 @@ THEOREMS = ["uf_wf_init", "uf_add_ok", "uf_find_ok", "uf_findItem_ok", "uf_findI
             "tr_inv_init", "tr_addNodeNew_inv_partial", "tr_add_inv_partial", "tr_collapse_records_subsumption",
             "tr_subsumptions_persist", "tr_contains_refl_partial", "tr_contains_added_partial", "tr_contains_sound_partial",
             "tr_add_exact_partial", "tr_addSetConnection_exact", "tr_contains_iff_partial", "tr_acyclic_run_ok",
-            "tr_acyclic_contains_iff"]
+            "tr_acyclic_contains_iff",
+            "tr_contains_iff", "tr_inv_empty", "tr_addNodeNew_inv", "tr_add_inv", "tr_run_inv", "tr_collapse_run", "tr_contains_of_inv",
+            "tr_set_of", "tr_rev_set_of", "tr_iter_all", "tr_count_exact", "tr_count_exact_eq_iter_all"]
 TRUSTED = ["Lean 4.33.0 kernel", "axioms: propext, Classical.choice, Quot.sound only (audited per theorem)",
            "statement of Props/C18.lean",
            "models Model/UnionFind.lean (uf.rs) and Model/TrRelUF.lean (trrel_union_find.rs) hand-written statement by statement; tied by "
